@@ -116,6 +116,17 @@ def edge_space(tier, phase):
     if tier == "thorough":
         hs = [mk(h) for h in hiers(4, 1)]
         out += [(a, b) for a in hs for b in hs]
+    # levels with THREE distinct labels (the enumerated spaces use <= 2 per level): renaming then permutes three
+    # names, which is where an ordering of the vocabulary can go wrong
+    c = float(cell)
+    for labs3 in (("a", "b", "c"), ("a", "b", "c", "a"), ("b", "c", "a", "b")):
+        n = len(labs3)
+        lvl = tuple((i * c, (i + 1) * c) for i in range(n))
+        top = ((0.0, n * c),)
+        three = ((top, lvl), (("T",), labs3))
+        flat = ((lvl,), (labs3,))
+        two_lab = ((top, lvl), (("T",), tuple("xy"[i % 2] for i in range(n))))
+        out += [(three, two_lab), (two_lab, three), (three, three), (flat, flat), (flat, ((lvl,), (tuple("xy"[i % 2] for i in range(n)),)))]
     return out
 
 
@@ -261,10 +272,16 @@ def _renamings(labels, salt):
     rev = {nm: "s%02d" % (k - i) for i, nm in enumerate(names)}                      # reverses the sort order
     case = {nm: (nm.upper() if nm.upper() != nm else nm.lower()) + "_" for nm in names}  # case change
     nonascii = {nm: EXOTIC[(i * 3 + salt) % len(EXOTIC)] for i, nm in enumerate(names)}
-    return {"reverse-order": rev, "case": case, "non-ascii": nonascii}
+    # mixed-case names whose ASCII order differs from their case-insensitive order ('B' < 'Silence' < 'a' < 'c' <
+    # 'verse' in ASCII; a, b, c, silence, verse ignoring case)
+    M1 = ["B", "a", "c", "Zebra", "d", "Echo", "f"]                 # ASCII: B Echo Zebra a c d f
+    M2 = ["Silence", "intro", "verse", "Alpha", "beta", "Coda", "d"]
+    mixed1 = {nm: M1[i % len(M1)] for i, nm in enumerate(names)}
+    mixed2 = {nm: M2[i % len(M2)] for i, nm in enumerate(names)}
+    return {"reverse-order": rev, "case": case, "non-ascii": nonascii, "mixed-case": mixed1, "mixed-case-2": mixed2}
 
 
-KINDS = ("reverse-order", "case", "non-ascii")
+KINDS = ("reverse-order", "case", "non-ascii", "mixed-case", "mixed-case-2")
 
 
 def _rename(sd, kinds):
